@@ -247,7 +247,7 @@ Section Build.
       let base : finfo :=
         {| fi_name := name; fi_snake := snake; fi_path := fpath; fi_kind := PrimitiveKind;
            fi_tk := tk; fi_cast := gs; fi_nullable := v_star v; fi_zero := zero; fi_placeholder := false;
-           fi_oneof := None; fi_via := []; fi_parent := None;
+           fi_oneof := None; fi_via := []; fi_parent := None; fi_inner := [];
            fi_required := o_required cfg type_name fpath; fi_computed := computed;
            fi_sensitive := o_sensitive cfg type_name fpath;
            fi_validators := vals; fi_planmods := pms;
@@ -278,6 +278,7 @@ Section Build.
                                             fi_placeholder := fi_placeholder ci; fi_oneof := fi_oneof ci;
                                             fi_via := m_name m' :: fi_via ci;
                                             fi_parent := Some (m_name m', m_zero m');
+                                            fi_inner := match fi_parent ci with Some pq => pq :: fi_inner ci | None => [] end;
                                             fi_required := fi_required ci; fi_computed := fi_computed ci;
                                             fi_sensitive := fi_sensitive ci; fi_validators := fi_validators ci;
                                             fi_planmods := fi_planmods ci; fi_comment := fi_comment ci;
@@ -335,7 +336,7 @@ Section Build.
             end in
           BOk [Field {| fi_name := name; fi_snake := snake; fi_path := fpath; fi_kind := kd';
                         fi_tk := tk'; fi_cast := gs'; fi_nullable := nullable'; fi_zero := zero';
-                        fi_placeholder := false; fi_oneof := oneof; fi_via := []; fi_parent := None;
+                        fi_placeholder := false; fi_oneof := oneof; fi_via := []; fi_parent := None; fi_inner := [];
                         fi_required := fi_required base; fi_computed := computed;
                         fi_sensitive := fi_sensitive base; fi_validators := vals; fi_planmods := pms;
                         fi_comment := fi_comment base; fi_suffix := suffix |} msg']
@@ -358,7 +359,7 @@ Section Build.
     Field {| fi_name := "active"; fi_snake := "active"; fi_path := path ++ ".active";
              fi_kind := PrimitiveKind; fi_tk := KBool; fi_cast := GsBool; fi_nullable := false;
              fi_zero := true; fi_placeholder := true; fi_oneof := None; fi_via := [];
-             fi_parent := None; fi_required := false; fi_computed := true; fi_sensitive := false;
+             fi_parent := None; fi_inner := []; fi_required := false; fi_computed := true; fi_sensitive := false;
              fi_validators := []; fi_planmods := [];
              fi_comment := "Automatically generated field preventing empty message errors";
              fi_suffix := "" |} None.
